@@ -145,6 +145,17 @@ theorem verify_detects_bitflip_ip4 (f : Ip4F) (n : Nat) (hl : (ip4Hdr f n).lengt
   obtain ⟨e', _, hv, hne⟩ := verifyAt_flip postId neverNoCk postId_ok (plainCtx 10 _ (by decide) hlen hl) i hi
   exact ⟨_, hv, rfl, rfl, hne⟩
 
+/-- ip4.go DecodeFromBytes hands exactly the emitted header (IHL words, options included) to VerifyChecksum,
+    for a well-formed header: 4-byte addresses, padded options the decoder's options walk accepts, total
+    length within the 16-bit length field. -/
+theorem ip4_delimits_emitted (f : Ip4F) (payload : Bytes) (hs : f.src.length = 4) (hd : f.dst.length = 4)
+    (ho4 : f.opts.length % 4 = 0) (ho : f.opts.length ≤ 40) (hok : ip4OptsOk 64 f.opts = true)
+    (htot : 20 + f.opts.length + payload.length < 65536) :
+    verifyIp4 (emitIp4 f payload) = some (verifyAt 0 10 postId neverNoCk (emitAt 0 10 postId (ip4Hdr f payload.length))) := by
+  unfold verifyIp4
+  rw [ip4Contents_emitted f payload hs hd ho4 ho hok htot]
+  rfl
+
 example : ∃ f : Ip4F, (ip4Hdr f 2).length ≤ 281474976710656 ∧ 0 < 8 * (ip4Hdr f 2).length :=
   ⟨{ tos := 0, id := 0, ff := 0, ttl := 64, proto := 17, src := [1, 2, 3, 4], dst := [5, 6, 7, 8], opts := [] }, by decide, by decide⟩
 
@@ -183,6 +194,13 @@ theorem verify_detects_bitflip_tcp (net : Net) (f : TcpF) (payload : Bytes) (hok
     rw [length_flipBit, emitAt_length postId h18]
   rw [hv] at hv'
   exact ⟨_, hv', rfl, rfl, hne⟩
+
+/-- tcp.go DecodeFromBytes accepts the emitted segment exactly when its options walk accepts the written
+    options; Contents ++ Payload is then the whole segment (what `verifyTcp` is given). -/
+theorem tcp_delimits_emitted (net : Net) (f : TcpF) (payload : Bytes) (ho4 : f.opts.length % 4 = 0) (ho : f.opts.length ≤ 40)
+    (hf : f.flags < 512) :
+    tcpDelim (emitTcp net f payload) = tcpOptsCheck 64 f.opts :=
+  tcpDelim_emitted net f payload ho4 ho hf
 
 example : ∃ (net : Net) (f : TcpF) (p : Bytes), net.ok = true ∧ net.lenOk (tcpHdr f ++ p).length ∧ 0 < 8 * (tcpHdr f ++ p).length :=
   ⟨.v6 (List.replicate 16 1) (List.replicate 16 2),
